@@ -3,6 +3,7 @@ From Coq Require Import List NArith ZArith Bool Arith String.
 Import ListNotations.
 Require Import Scan Pos DQ SQ.
 Require Emit EmitSQ EmitDQ Plain EmitPlain AnalysisPlain.
+Require Represent ParserGrammar EmitGrammar SerializeGrammar.
 
 (* KIND C02_double_quoted_scalar_roundtrip : U *)
 (* for EVERY text t over printable ASCII (spaces, apostrophes included), the 15 single-letter escapes and \xHH code points,
@@ -104,6 +105,37 @@ Example C02_plain_nonvacuous :
    match scan_plain s with Ok (tok, s') => t_kind tok = TScalar t true SPlain /\ rest s' = [NUL] | _ => False end).
 Proof. exact Plain.plain_example. Qed.
 
+
+(* KIND C02_dumped_document_grammatical : U *)
+(* the dump side: for EVERY value, heap of containers (sharing and cycles included) and representer option set, the events the representer +
+   serializer models write for one document are a document of the event grammar (collections closed and nested, as many values as keys, one
+   root, an alias where a node was already written).  Proofs/SerializeGrammar.v: the representer only builds graphs whose node ids exist; the
+   serializer's recursion is bounded by the number of nodes not yet written *)
+Theorem C02_dumped_document_grammatical : forall o h root evs c, Represent.dump_doc o h root = Represent.ROk evs ->
+  EmitGrammar.krun (ParserGrammar.GDocs :: c) (map SerializeGrammar.skind evs) = Some (ParserGrammar.GDocs :: c).
+Proof. exact SerializeGrammar.dumped_document_grammatical. Qed.
+Eval vm_compute in "ASSUME:C02_dumped_document_grammatical"%string. Print Assumptions C02_dumped_document_grammatical.
+(* KIND C02_dumped_stream_accepted : U *)
+(* representer, serializer and emitter models composed: a stream of such documents between STREAM-START and STREAM-END, handed to the emitter as
+   events of the same kinds, never meets a structural EmitterError - under every emitter option set *)
+Theorem C02_dumped_stream_accepted : forall docs evs canon allow_uni ind width lb,
+  (forall d, In d docs -> exists o h root, Represent.dump_doc o h root = Represent.ROk d) ->
+  map EmitGrammar.kind evs = (EmitGrammar.KStreamStart :: flat_map (map SerializeGrammar.skind) docs ++ [EmitGrammar.KStreamEnd])%list ->
+  EmitGrammar.fine (snd (Emit.emit_all evs (Emit.init canon allow_uni ind width lb))).
+Proof. exact SerializeGrammar.dumped_stream_accepted. Qed.
+Eval vm_compute in "ASSUME:C02_dumped_stream_accepted"%string. Print Assumptions C02_dumped_stream_accepted.
+(* KIND C02_dumped_cycle : F *)
+(* non-vacuity: a list that contains itself and a mapping shared twice - the document has an anchor and aliases and is in the grammar *)
+Example C02_dumped_cycle :
+  let o := {| Represent.default_style := None; Represent.default_flow := None; Represent.sort_keys := true |} in
+  let h := [Construct.CList [Construct.PInt 1; Construct.PRef 0; Construct.PRef 1; Construct.PRef 1]; Construct.CDict [(Construct.PStr [107%N], Construct.PNone)]] in
+  match Represent.dump_doc o h (Construct.PRef 0) with
+  | Represent.ROk evs => map SerializeGrammar.skind evs = [EmitGrammar.KDocStart; EmitGrammar.KSeqStart; EmitGrammar.KLeaf; EmitGrammar.KLeaf; EmitGrammar.KMapStart; EmitGrammar.KLeaf;
+                           EmitGrammar.KLeaf; EmitGrammar.KMapEnd; EmitGrammar.KLeaf; EmitGrammar.KSeqEnd; EmitGrammar.KDocEnd] /\
+               existsb (fun e => match e with Represent.SAlias (_ :: _) => true | _ => false end) evs = true
+  | _ => False
+  end.
+Proof. exact SerializeGrammar.dumped_cycle. Qed.
 
 (* PARTIAL (FULL: forall v opts, load (dump v opts) ~ v): only the double-quoted (the universal fallback style) and single-quoted scalar layers
    without folding is a theorem.  Value<->node, node<->event and the other four scalar styles are decided by the
